@@ -185,36 +185,34 @@ def find_impl_block(s, header, all_matches=False):
 
 def _item_start(s, kw_idx, lo):
     """Walk back from the keyword over qualifiers, attributes and doc comments to the item start."""
-    # go to the beginning of the line that has the first qualifier
+    base = lo + 1 if lo >= 0 else 0
     i = kw_idx
-    # step back over qualifiers on the same logical item: pub, pub(crate), const, unsafe, async, extern "C", default
     while True:
-        m = re.search(r'(pub(\s*\([^)]*\))?|const|unsafe|async|default|extern\s*"[^"]*")\s*$', s[lo + 1 if lo >= 0 else 0:i])
+        m = re.search(r'(pub(\s*\([^)]*\))?|const|unsafe|async|default|extern\s*"[^"]*")\s*$', s[base:i])
         if not m:
             break
-        i = (lo + 1 if lo >= 0 else 0) + m.start()
-    start = i
-    # attributes / doc comments directly above
-    while True:
-        ls = s.rfind('\n', 0, start - 1 if start > 0 else 0)
-        prev_line_start = s.rfind('\n', 0, ls) + 1 if ls >= 0 else 0
-        if ls < 0:
-            break
-        prev = s[prev_line_start:ls].strip()
-        if s[ls + 1:start].strip() != '':
-            break
-        if prev.startswith('#[') or prev.startswith('///') or prev.startswith('//!') or (prev.startswith('//') and False):
-            start = prev_line_start
+        i = base + m.start()
+    # beginning of the line holding the first qualifier
+    start = s.rfind('\n', 0, i) + 1
+    if s[start:i].strip() != '':
+        start = i
+    # include attribute / doc-comment lines directly above (attributes may span several lines)
+    while start > base:
+        prev_end = start - 1                      # index of the '\n' that ends the previous line
+        prev_start = s.rfind('\n', 0, prev_end) + 1
+        line = s[prev_start:prev_end].strip()
+        if line.startswith('///') or line.startswith('//!') or (line.startswith('#[') and line.endswith(']')):
+            start = prev_start
             continue
-        # multi-line attribute ending with )] or ]
-        if prev.endswith(')]') or prev.endswith(']'):
-            # look upward for the '#[' opener
-            k = s.rfind('#[', lo if lo >= 0 else 0, prev_line_start + len(prev))
-            if k >= 0 and s[k:ls].count('[') == s[k:ls].count(']') and '\n\n' not in s[k:ls] and ';' not in s[k:ls] and '}' not in s[k:ls]:
-                start = s.rfind('\n', 0, k) + 1
-                continue
+        if line.endswith(']') or line.endswith(')]'):
+            k = s.rfind('#[', base, prev_end)
+            if k >= 0:
+                seg = s[k:prev_end]
+                if seg.count('[') == seg.count(']') and ';' not in seg and '{' not in seg and '}' not in seg and s[s.rfind('\n', 0, k) + 1:k].strip() == '':
+                    start = s.rfind('\n', 0, k) + 1
+                    continue
         break
-    return start
+    return max(start, base)
 
 
 def extract_item(src, block_header, kind, name):
@@ -322,6 +320,13 @@ class Rewriter:
                 continue
             if t[i] == '#' and i + 1 < len(t) and t[i + 1] == '[':
                 k = match_brace(t, i + 1)
+                attr = t[i:k + 1]
+                md = re.match(r'#\[\s*derive\s*\((.*)\)\s*\]$', attr, re.S)
+                if md:
+                    names = [x.strip() for x in md.group(1).split(',')]
+                    if 'Copy' in names and 'Clone' in names:
+                        # plain-data types stay Copy (semantically relevant: by-value use of `*r`)
+                        out.append('#[derive(Clone, Copy)]')
                 i = k + 1
                 n += 1
                 continue
